@@ -285,6 +285,9 @@ func probesOf(c *Case) []*Probe {
 		if strings.HasPrefix(q.Impl["PG"], "ok:") {
 			ps = append(ps, specProbe("sqlcanon", q.Impl["PG"][3:]))
 		}
+		if q.Expr != nil && c.Rel == "" {
+			ps = append(ps, renderProbe(q.Expr, "shared"))
+		}
 		return ps
 	case "dfpair":
 		// C11: the same query with and without a default field
@@ -359,8 +362,12 @@ func probesOf(c *Case) []*Probe {
 		ps := []*Probe{first}
 		if e != nil {
 			ps = append(ps, renderProbe(e, c.Rel))
-			if strings.HasPrefix(c.Rel, "override:") {
+			if strings.HasPrefix(c.Rel, "override:") || strings.HasPrefix(c.Rel, "override-inplace:") {
 				ps = append(ps, renderProbe(e, "pg"))
+			}
+			if strings.HasPrefix(c.Rel, "override-inplace:") {
+				// the same override written into a COPY of the table must render the same
+				ps = append(ps, renderProbe(e, "override:"+strings.TrimPrefix(c.Rel, "override-inplace:")))
 			}
 		}
 		return ps
